@@ -156,7 +156,15 @@ def stencil_cases(rnd, tier):
 
 # ----------------------------------------------------------------------------- general regime: tokens
 def random_mesh(rnd, n):
-    kind = rnd.choice(["uni", "refined", "morphed", "faces"])
+    kind = rnd.choice(["uni", "refined", "morphed", "faces", "tiny", "nearly_uniform"])
+    if kind == "tiny" and n >= 3:
+        # every monotone face distribution is a mesh: non-uniform meshes of microscopic and of astronomic extent
+        L_ = rnd.choice([2e-7, 3e-9, 4e6])
+        return fd.mesh.refinedmesh(ncell=n, length=L_, ratio=rnd.choice([2.0, 0.5, 3.0]))
+    if kind == "nearly_uniform" and n >= 3:
+        # ... and meshes that differ from a uniform one by a relative 1e-4 .. 1e-9 only
+        eps = rnd.choice([1e-4, 2e-6, 2e-7, 1e-9])
+        return fd.mesh.morphedmesh(ncell=n, length=1.0, morph=lambda x, e=eps: x + e * np.sin(2 * np.pi * x))
     if kind == "uni" or n < 3:
         return fd.uniform(n, length=rnd.choice([1.0, 3.7, 0.01]), x0=rnd.choice([0.0, -1.3]))
     if kind == "refined":
